@@ -27,6 +27,9 @@ def run(ctx):
     ctx.each(r11e, ctx, repo, "R11e")
     ctx.each(r11f, ctx, repo)
     ctx.each(r11g, ctx, repo)
+    ctx.each(r11h, ctx, repo)
+    ctx.each(r11i, ctx, repo)
+    ctx.each(r11j, ctx, repo)
 
 
 def _is_one(e):
@@ -428,3 +431,99 @@ def r11g(ctx, repo):
                 uses = [(st, t) for st, t in _truth_uses(fi.node, v) if any(x is st for x in ast.walk(l))]
                 ctx.check(not uses, "R11g", fi, uses[0][0] if uses else l, "`%s` from %s.items() is never used as a truth value" % (v, src), "`%s` tests the overwrite value `%s` for truth: an overwrite of exactly 0 (defund the program, zero capacity, zero coverage) is dropped and the program-book value is used instead, so the explicit overwrite does not take precedence" % (ast.unparse(uses[0][1])[:60] if uses else "", v))
     ctx.require(n >= 3, "R11g: fewer overwrite loops in ProgramInstructions (%d) than confirmed (3)" % n)
+
+
+def r11h(ctx, repo):
+    from ..core import algebra as A
+
+    ctx.rule("R11h", "saturation: Program.get_prop_covered applies the documented saturating curve 2*s/(1+exp(-2*c/s)) - s (c = capacity / eligible, s = saturation at the step, stepped interpolation) exactly when the program has saturation data, and capacity / eligible (1 where eligible <= capacity) otherwise")
+    fi = repo.func("programs", "Program.get_prop_covered")
+    me = K.self_name(fi)
+    sat = [s for s in own_nodes(fi.node) if isinstance(s, ast.If) and ast.unparse(s.test) in ("%s.saturation.has_data" % me, "not %s.saturation.has_data" % me)]
+    ctx.require(len(sat) == 1, "R11h: the saturation branch of get_prop_covered was not found")
+    pos = ast.unparse(sat[0].test) == "%s.saturation.has_data" % me
+    with_sat, without = (sat[0].body, sat[0].orelse) if pos else (sat[0].orelse, sat[0].body)
+    # inside the saturated branch: c := capacity / eligible ; s := self.saturation.interpolate(tvec, 'previous') ; p := 2*s/(1+exp(-2*c/s)) - s
+    assigns = [s for s in with_sat if isinstance(s, ast.Assign) and isinstance(s.targets[0], ast.Name)]
+    svar = [s.targets[0].id for s in assigns if isinstance(s.value, ast.Call) and ast.unparse(s.value.func) == "%s.saturation.interpolate" % me]
+    cvar = [s.targets[0].id for s in assigns if isinstance(s.value, ast.Call) and ast.unparse(s.value.func) == "np.divide" and [ast.unparse(a) for a in s.value.args[:2]] == [fi.params[2], fi.params[3]]]
+    curve = [s for s in assigns if any(isinstance(c, ast.Call) and ast.unparse(c.func) in ("exp", "np.exp") for c in ast.walk(s.value))]
+    ok = len(svar) == 1 and len(cvar) >= 1 and len(curve) == 1
+    if ok:
+        s_, c_ = svar[0], cvar[0]
+        try:
+            ok = A.poly(curve[0].value) == A.poly(A.parse("2 * %s / (1 + exp(-2 * %s / %s)) - %s" % (s_, c_, s_, s_)))
+        except A.NotPolynomial:
+            ok = False
+        # the curve is applied to the quotient, after the quotient and the saturation are available
+        ok = ok and curve[0].lineno > max(a.lineno for a in assigns if a.targets[0].id in (s_,)) and ast.unparse(curve[0].targets[0]) == c_
+    ctx.check(ok, "R11h", fi, curve[0] if curve else sat[0], "saturated coverage = 2*s/(1+exp(-2*c/s)) - s", "`%s` is not the saturating curve 2*s/(1+exp(-2*c/s)) - s of the quotient capacity/eligible: coverage can exceed the saturation level (or is no longer capacity/eligible for small coverage)" % (norm(curve[0])[:90] if curve else "the saturated branch"))
+    ctx.check(bool(with_sat) and bool(without) and any(isinstance(s, ast.Assign) and isinstance(s.value, ast.Call) and ast.unparse(s.value.func) == "np.divide" for s in without), "R11h", fi, sat[0], "without saturation data the coverage is the masked quotient", "the branch without saturation data does not compute capacity / eligible", stmt_text="no-saturation-branch")
+
+
+def _selection(ctx, rule, fi, kind, default_pred, overwrite_pred):
+    """The two stores into the returned mapping are selected by `instructions is None or prog.name not in instructions.<kind>` and its negation."""
+    from ..core import boolx as B
+
+    stores = [s for s in own_nodes(fi.node) if isinstance(s, ast.Assign) and isinstance(s.targets[0], ast.Subscript) and ast.unparse(s.targets[0].slice) == "prog.name"]
+    d = [s for s in stores if default_pred(s)]
+    o = [s for s in stores if overwrite_pred(s)]
+    if len(d) != 1 or len(o) != 1:
+        ctx.fail(rule, fi, fi.node, "%s: the default store and the overwrite store were not both found (default %d, overwrite %d)" % (fi.qualname, len(d), len(o)), stmt_text="selection-shape:%s" % kind)
+        return
+    lp = [l for l in K.enclosing_loops(d[0]) if ".programs" in ast.unparse(l.iter)]
+    want_o = B.parse_cond("not (instructions is None) and prog.name in instructions.%s" % kind)
+    want_d = B.parse_cond("instructions is None or not (prog.name in instructions.%s)" % kind)
+    for st, want, name in ((d[0], want_d, "program-book value"), (o[0], want_o, "overwrite")):
+        try:
+            got = B.cond(guards_of(st, stop=lp[0] if lp else None))
+            ok = B.equivalent(got, want)
+            cx = B.counterexample(got, want)
+        except ValueError:
+            ok, cx = False, None
+        ctx.check(ok, rule, fi, st, "%s used exactly when %s" % (name, "an overwrite exists" if st is o[0] else "no overwrite exists"), "`%s` (the %s) is selected under a condition that differs from `%s` (e.g. when %s): an explicit %s overwrite does not take precedence, or is applied to programs that have none" % (norm(st)[:60], name, "instructions has a %s entry for the program" % kind if st is o[0] else "instructions is None or has no %s entry" % kind, cx, kind))
+
+
+def r11i(ctx, repo):
+    ctx.rule("R11i", "overwrite selection: in ProgramSet.get_alloc / get_capacities / get_prop_coverage the instruction overwrite is used exactly when instructions exist and contain an entry for the program, the program-book computation exactly otherwise (truth table over the two atoms)")
+    _selection(ctx, "R11i", repo.func("programs", "ProgramSet.get_alloc"), "alloc", lambda s: ".get_spend(" in ast.unparse(s.value), lambda s: "instructions.alloc[" in ast.unparse(s.value))
+    _selection(ctx, "R11i", repo.func("programs", "ProgramSet.get_capacities"), "capacity", lambda s: ".get_capacity(" in ast.unparse(s.value), lambda s: "instructions.capacity[" in ast.unparse(s.value))
+    _selection(ctx, "R11i", repo.func("programs", "ProgramSet.get_prop_coverage"), "coverage", lambda s: ".get_prop_covered(" in ast.unparse(s.value), lambda s: "instructions.coverage[" in ast.unparse(s.value))
+
+
+def r11j(ctx, repo):
+    from ..core import boolx as B
+
+    ctx.rule("R11j", "ProgramInstructions keeps every overwrite it is given: for each (program, value) of alloc / capacity / coverage a TimeSeries value is stored as a deep copy and any other value as TimeSeries(t=start_year, vals=value), under the program's own name; an alloc value of None (and an empty TimeSeries) is the only thing skipped")
+    fi = repo.func("programs", "ProgramInstructions.__init__")
+    me = K.self_name(fi)
+    n = 0
+    for kind in ("alloc", "capacity", "coverage"):
+        loops = [l for l in own_nodes(fi.node) if isinstance(l, ast.For) and ast.unparse(l.iter) == "%s.items()" % kind and isinstance(l.target, ast.Tuple)]
+        if len(loops) != 1:
+            ctx.fail("R11j", fi, fi.node, "the loop over %s.items() was not found in ProgramInstructions.__init__" % kind, stmt_text="pi-loop:%s" % kind)
+            continue
+        l = loops[0]
+        k, v = (ast.unparse(x) for x in l.target.elts)
+        # the loop runs whenever the argument is given
+        g = B.cond(guards_of(l))
+        want = B.parse_cond(kind if kind != "alloc" else "not isinstance(alloc, ProgramSet) and alloc")
+        ctx.check(B.equivalent(g, want), "R11j", fi, l, "%s overwrites are read whenever the argument is given" % kind, "the loop over %s.items() runs under a condition other than `%s`: overwrites handed to the constructor are ignored" % (kind, "alloc given and not a ProgramSet" if kind == "alloc" else kind), stmt_text="pi-loop-guard:%s" % kind)
+        stores = [s for s in ast.walk(l) if isinstance(s, ast.Assign) and ast.unparse(s.targets[0]) == "%s.%s[%s]" % (me, kind, k)]
+        copy = [s for s in stores if ast.unparse(s.value) in ("sc.dcp(%s)" % v, "copy.deepcopy(%s)" % v, "%s.copy()" % v)]
+        wrap = [s for s in stores if isinstance(s.value, ast.Call) and ast.unparse(s.value.func) == "TimeSeries" and astq.kwarg(s.value, "vals", pos=1) is not None and ast.unparse(astq.kwarg(s.value, "vals", pos=1)) == v and astq.kwarg(s.value, "t", pos=0) is not None and ast.unparse(astq.kwarg(s.value, "t", pos=0)) == "%s.start_year" % me]
+        n += 1
+        if len(copy) != 1 or len(wrap) != 1 or len(stores) != 2:
+            ctx.fail("R11j", fi, l, "%s overwrites are not stored as exactly {deep copy of a TimeSeries, TimeSeries(t=start_year, vals=value)} under the program's name (stores: %s)" % (kind, [norm(s)[:50] for s in stores]), stmt_text="pi-stores:%s" % kind)
+            continue
+        is_ts = "isinstance(%s, TimeSeries)" % v
+        if kind == "alloc":
+            want_copy = B.parse_cond("%s and %s.has_data" % (is_ts, v))
+            want_wrap = B.parse_cond("not (%s and %s.has_data) and not (%s is None)" % (is_ts, v, v))
+        else:
+            want_copy = B.parse_cond(is_ts)
+            want_wrap = B.parse_cond("not %s" % is_ts)
+        for st, want, what in ((copy[0], want_copy, "copied"), (wrap[0], want_wrap, "wrapped at the start year")):
+            got = B.cond(guards_of(st, stop=l))
+            ctx.check(B.equivalent(got, want), "R11j", fi, st, "%s value %s under the right test" % (kind, what), "`%s` is executed under a condition that differs from the expected one (differs e.g. when %s): a %s overwrite is dropped, stored in the wrong form, or shared with the caller's object" % (norm(st)[:60], B.counterexample(got, want), kind))
+    ctx.require(n >= 3, "R11j: fewer overwrite kinds handled (%d) than confirmed (3)" % n)
